@@ -89,6 +89,21 @@ func (g *gate) release() {
 	g.mu.Unlock()
 }
 
+// hitLabel is a parking point that is NOT one of the labelled calls of the model (it is not
+// counted): only the label-triggered gate reacts to it.
+func (g *gate) hitLabel(label string) {
+	g.mu.Lock()
+	if !g.armed || g.parkLabel != label || g.fired2 || bgCall() {
+		g.mu.Unlock()
+		return
+	}
+	g.fired2 = true
+	close(g.parked2)
+	ch := g.unblock2
+	g.mu.Unlock()
+	<-ch
+}
+
 func bgCall() bool {
 	pcs := make([]uintptr, 64)
 	n := runtime.Callers(3, pcs)
@@ -173,6 +188,10 @@ func (s *gStore) GetWorkloads(ctx context.Context, ids []string) ([]*types.Workl
 func (s *gStore) GetWorkload(ctx context.Context, id string) (*types.Workload, error) {
 	s.g.hit("getwl")
 	return s.Store.GetWorkload(ctx, id)
+}
+func (s *gStore) AddNode(ctx context.Context, o *types.AddNodeOptions) (*types.Node, error) {
+	s.g.hitLabel("addnode-enter") // between the plugin step and the store step of Calcium.AddNode
+	return s.Store.AddNode(ctx, o)
 }
 func (s *gStore) AddPod(ctx context.Context, name, desc string) (*types.Pod, error) {
 	s.g.hit("addpod")
